@@ -7,6 +7,7 @@ The REPORTED nets and writers (get_all_value_nets) are compared too: equal for e
 the connected components computed from the statement texts alone, the writers equal to a hand-written list.  Those
 three clauses have no input to quantify over; they are decided by direct comparison per variant.
 """
+import os
 import sys
 import z3
 
@@ -18,6 +19,7 @@ from symx.symsim import SymSim
 
 REPLAY = '''
 sys.path.insert(0, '/verif')
+import os; os.environ['VERIF_VARIANTS'] = %(nvar)r
 import warnings; warnings.filterwarnings('ignore')
 from corpus import conn_designs as CD
 from vlib.ffreplay import _cells
@@ -83,6 +85,7 @@ def oracle_partition(name, stmts):
 
 REPLAY_NETS = '''
 sys.path.insert(0, '/verif')
+import os; os.environ['VERIF_VARIANTS'] = %(nvar)r
 import warnings; warnings.filterwarnings('ignore')
 from corpus import conn_designs as CD
 from checks.c08 import canon_nets, oracle_partition
@@ -123,7 +126,7 @@ def item(it):
     except core.Unsupported: raise
     except Exception as e:
       res['violations'].append(dict(key=f"connect:{name}:elaboration", what=f"{res['name']} variant {vi} {stmts}: legal design rejected: {type(e).__name__}: {str(e)[:150]}",
-                                    replay=REPLAY % dict(name=name, vi=vi, state={}, pair=None, ref=0)))
+                                    replay=REPLAY % dict(nvar=os.environ.get('VERIF_VARIANTS', '24'), name=name, vi=vi, state={}, pair=None, ref=0)))
       continue
     top = sim.top
     # -- the REPORTED nets and writers: equal for every variant, and the partition equals the connected components
@@ -133,13 +136,13 @@ def item(it):
     skip = lambda ms: all(m.endswith('.clk') or m.endswith('.reset') for m in ms)
     if nets != ref_nets:
       res['violations'].append(dict(key=f"connect:{name}:nets depend on the order", what=f"{res['name']} variant {vi} {stmts}: reported nets/writers differ from variant 0: {[x for x in nets if x not in ref_nets]}",
-                                    replay=REPLAY_NETS % dict(name=name, vi=vi)))
+                                    replay=REPLAY_NETS % dict(nvar=os.environ.get('VERIF_VARIANTS', '24'), name=name, vi=vi)))
     elif sorted(ms for w, ms in nets if not skip(ms)) != oracle_partition(name, stmts):
       res['violations'].append(dict(key=f"connect:{name}:nets are not the connected components", what=f"{res['name']} variant {vi}: reported nets {[ms for w, ms in nets if not skip(ms)]} != components {oracle_partition(name, stmts)}",
-                                    replay=REPLAY_NETS % dict(name=name, vi=vi)))
+                                    replay=REPLAY_NETS % dict(nvar=os.environ.get('VERIF_VARIANTS', '24'), name=name, vi=vi)))
     elif sorted(w for w, ms in nets if not skip(ms)) != sorted(CD.WRITERS[name]) or any(w not in ms for w, ms in nets):
       res['violations'].append(dict(key=f"connect:{name}:wrong writer", what=f"{res['name']} variant {vi}: reported writers {[w for w, ms in nets if not skip(ms)]} != {CD.WRITERS[name]}",
-                                    replay=REPLAY_NETS % dict(name=name, vi=vi)))
+                                    replay=REPLAY_NETS % dict(nvar=os.environ.get('VERIF_VARIANTS', '24'), name=name, vi=vi)))
     else:
       res['discharged'] += 2
     outs = sorted(repr(x) for x in top._dsl.all_signals if isinstance(x, OutPort) and x.is_top_level_signal() and x.get_host_component() is top)
@@ -159,7 +162,7 @@ def item(it):
       if exc is not None:
         v, m = prove(pc, z3.BoolVal(False))
         res['violations'].append(dict(key=f"connect:{name}:raises", what=f"{res['name']} variant {vi}: evaluation raised {type(exc).__name__}: {exc}",
-                                      replay=REPLAY % dict(name=name, vi=vi, state=state_of(m) if v == 'sat' else {}, pair=None, ref=0)))
+                                      replay=REPLAY % dict(nvar=os.environ.get('VERIF_VARIANTS', '24'), name=name, vi=vi, state=state_of(m) if v == 'sat' else {}, pair=None, ref=0)))
         continue
       vals, ov = out
       bad = None
@@ -176,7 +179,7 @@ def item(it):
         else: res['inconclusive'].append("solver unknown")
       if bad:
         res['violations'].append(dict(key=f"connect:{name}:member differs", what=f"{res['name']} variant {vi}: connect{bad[0]} but the two sides differ after evaluation",
-                                      replay=REPLAY % dict(name=name, vi=vi, state=bad[1], pair=list(bad[0]), ref=0)))
+                                      replay=REPLAY % dict(nvar=os.environ.get('VERIF_VARIANTS', '24'), name=name, vi=vi, state=bad[1], pair=list(bad[0]), ref=0)))
         continue
       if ref_out is None:
         ref_out = ov; res['discharged'] += 1
@@ -185,7 +188,7 @@ def item(it):
         if v == 'unsat': res['discharged'] += 1
         elif v == 'sat':
           res['violations'].append(dict(key=f"connect:{name}:order dependent", what=f"{res['name']}: variant {vi} {stmts} gives different outputs than variant 0",
-                                        replay=REPLAY % dict(name=name, vi=vi, state=state_of(m), pair=None, ref=0)))
+                                        replay=REPLAY % dict(nvar=os.environ.get('VERIF_VARIANTS', '24'), name=name, vi=vi, state=state_of(m), pair=None, ref=0)))
         else: res['inconclusive'].append("solver unknown")
   res['distinct'].append(res['name'])
   res['twins_expected'] = 0
@@ -197,11 +200,12 @@ def item(it):
 def main():
   tier = sys.argv[1] if len(sys.argv) > 1 else 'quick'
   chk = Check('C08', tier)
+  if tier == 'thorough': os.environ['VERIF_VARIANTS'] = '240'
   from corpus import conn_designs as CD
   items = [dict(name=n) for n in CD.names()]
   for it, r in pmap(item, items, item_timeout=900):
     chk.absorb(it, r)
-  chk.bounds = dict(designs=CD.names(), variants='all permutations x side flips up to 24 per design (rule-generated subset above)', cycles='one combinational evaluation from an arbitrary state')
+  chk.bounds = dict(designs=CD.names(), variants=f"permutations x side flips: up to {os.environ.get('VERIF_VARIANTS', '24')} per design (all when fewer; evenly spaced subset otherwise)", cycles='one combinational evaluation from an arbitrary state')
   chk.outside = ['connection multisets outside the corpus', 'method-port nets']
   chk.assumptions = ['corpus designs are legal by construction: an elaboration error on any variant is a violation']
   chk.finish(rule="per design and variant: the variant elaborates; per connect statement one obligation 'both sides equal after evaluation for all inputs'; per variant one obligation 'outputs equal variant 0'; per variant two structural obligations: reported nets/writers equal variant 0's, partition = connected components of the statement graph and writers = hand-written list (direct comparison, no solver)")
